@@ -18,7 +18,7 @@ from vplib import *
 
 PROP = "C04"
 
-WORDS = ["foo", "bar", "ab", "abc", "a", "b", "c", "needle", "x", "ba", "oo", "foo3", "1", "22", "a1", "b2", " ", "\n", "fo", "ob"]
+WORDS = ["foo", "bar", "ab", "abc", "a", "b", "c", "needle", "x", "ba", "oo", "foo3", "1", "22", "a1", "b2", " ", "\n", "fo", "ob", "a\nb", "xa\nb"]
 # (regex, tags)  -- shapes chosen after the code paths of progressVariant.find
 REGEX_SAMPLES = {
     "foo": ["foo"], "bar": ["bar"], "ab": ["ab"], "a": ["a"], "b": ["b"], "abc": ["abc"], "needle": ["needle"], "ne*dle": ["ndle", "neeedle"],
@@ -34,7 +34,7 @@ REGEX_SAMPLES = {
 }
 REGEXES = sorted(REGEX_SAMPLES)
 ASSERT_REGEXES = ["^foo", "foo3$", "bar$", "\\bfoo\\b", "foo\\z", "\\Aa", "^$", "\\Bx?", "(?m:^)ab", "a$", "^", "$", "\\bb", "o\\b", "(?m:a$)", "^a*$", "\\Bb"]
-CAPTURE_REGEXES = ["(?P<v>[a-z])", "(?P<v>[a-z]+)[0-9]", "(?P<v>a|b)", "(?P<v>a)?b", "(?P<v>fo+)", "x(?P<v>.)", "(?P<v>[0-9]+)"]
+CAPTURE_REGEXES = ["(?P<v>a\\n?b)", "(?P<v>[^ ]+)", "(?P<v>.\\n.)", "(?P<v>[a-z])", "(?P<v>[a-z]+)[0-9]", "(?P<v>a|b)", "(?P<v>a)?b", "(?P<v>fo+)", "x(?P<v>.)", "(?P<v>[0-9]+)"]
 VAR_USES = [("", 0), ("x", 1), (" ", 0), ("[0-9]", 0), ("a", 0), ("$", 0), ("+", 0)]   # (regex with the use removed, position)
 
 
@@ -72,7 +72,7 @@ def gen_case(rng, idx, allow_assert, allow_vars):
     pool = [rng.choice(REGEXES) for _ in range(rng.choice([1, 2, 3]))]
     if allow_assert and rng.random() < 0.35:
         pool.append(rng.choice(ASSERT_REGEXES))
-    uses_vars = allow_vars and rng.random() < 0.12
+    uses_vars = allow_vars and rng.random() < 0.2
     vocab = [w for r in pool for w in REGEX_SAMPLES.get(r, [])] * 3 + WORDS
     streams = []
     for _ in range(rng.choice([1, 2, 3, 4])):
